@@ -16,9 +16,9 @@ touched=$(git diff --name-only | tr '\n' ' ')
 s1=$(cargo test --workspace --no-fail-fast --offline 2>&1 | grep -E "^test result" | head -1)
 s2=$(cargo test --workspace --all-features --no-fail-fast --offline 2>&1 | grep -E "^test result" | head -1)
 cp "$D/demo.rs" tests/demo_x.rs
-d_with=$(cargo test --offline --all-features --test demo_x 2>&1 | grep -E "^test result|error(\[|:)" | head -2 | tr '\n' ' ')
+d_with=$(cargo test --offline --all-features --test demo_x 2>&1 | grep -E "^test result|^error(\[|:)" | head -2 | tr '\n' ' ')
 git checkout -- .
-d_without=$(cargo test --offline --all-features --test demo_x 2>&1 | grep -E "^test result|error(\[|:)" | head -2 | tr '\n' ' ')
+d_without=$(cargo test --offline --all-features --test demo_x 2>&1 | grep -E "^test result|^error(\[|:)" | head -2 | tr '\n' ' ')
 rm -f tests/demo_x.rs
 python3 - "$ID" "$touched" "$s1" "$s2" "$d_with" "$d_without" > "$D/confirm.json" <<'PY'
 import sys, json, re
